@@ -140,7 +140,12 @@ Definition in_int64 (z : Z) : bool := fits W64 z.
 Definition num_of_int (z : Z) : jnum :=
   mkNum (if in_int64 z then Some z else None) (Some (f64_of_Z z)).
 Definition num_of_f64 (b : N) : jnum :=
-  mkNum (match f64_to_Z b with Some z => if in_int64 z then Some z else None | None => None end) (Some b).
+  (* encoding/json prints the shortest digits that round-trip: the literal is the exact integer
+     only up to 2^53 (beyond, ParseInt of the zero-padded digits is some other integer or fails) *)
+  mkNum (match f64_to_Z b with
+         | Some z => if Z.abs z <=? 9007199254740992 then Some z else None
+         | None => None
+         end) (Some b).
 
 Section WithTable.
 Variable T : gotable.
